@@ -13,14 +13,15 @@ from units.common import *
 LEVEL_NOTE = ('structural clauses only (R upper triangular, det<QR> == product(diag(R)), pivot is a bijection, frame); orthogonality and the '
               'reconstruction bound of the property are not decided by this technique')
 
-def qr_case(ty, n, piv, cfg):
+def qr_case(ty, n, piv, cfg, default_type=False):
     T = ty.cpp
     a = Buf('a', ty, n * n, 'in'); q = Buf('q', ty, n * n, 'out'); r = Buf('r', ty, n * n, 'out')
     bufs = [a, q, r]; ens = []
     if piv:
         p = Buf('p', U64, n, 'out'); bufs.append(p)
-        body = ('    %s\n    Tensor<%s,%d,%d> Q, R; Tensor<size_t,%d> P;\n    qr<QRCompType::MGSRPiv>(A, Q, R, P);\n    %s %s for (int i_ = 0; i_ < %d; ++i_) p[i_] = P.data()[i_];'
-                % (town(ty, (n, n), 'a'), T, n, n, n, copy_out('Q', 'q', n * n), copy_out('R', 'r', n * n), n))
+        # default_type: the computation type is left to the overload set -- a pivot argument must still give the pivoted factorisation
+        body = ('    %s\n    Tensor<%s,%d,%d> Q, R; Tensor<size_t,%d> P;\n    %s(A, Q, R, P);\n    %s %s for (int i_ = 0; i_ < %d; ++i_) p[i_] = P.data()[i_];'
+                % (town(ty, (n, n), 'a'), T, n, n, n, 'qr' if default_type else 'qr<QRCompType::MGSRPiv>', copy_out('Q', 'q', n * n), copy_out('R', 'r', n * n), n))
     else:
         body = ('    %s\n    Tensor<%s,%d,%d> Q, R;\n    qr(A, Q, R);\n    %s %s'
                 % (town(ty, (n, n), 'a'), T, n, n, copy_out('Q', 'q', n * n), copy_out('R', 'r', n * n)))
@@ -33,7 +34,7 @@ def qr_case(ty, n, piv, cfg):
             ens.append(('bool', 'P[%d] < n' % i, E.post(p, i).cmp('lt', E.const(n, U64))))
             for j in range(i + 1, n):
                 ens.append(('bool', 'P[%d] != P[%d]' % (i, j), E.post(p, i).cmp('ne', E.post(p, j))))
-    return Case('C13/qr%s/%s/%d/%s' % ('-piv' if piv else '', ty.name, n, cfg.tag()), 'C13', body, bufs, ens, 'UF', cfg)
+    return Case('C13/qr%s/%s/%d/%s' % (('-piv-default' if default_type else '-piv') if piv else '', ty.name, n, cfg.tag()), 'C13', body, bufs, ens, 'UF', cfg)
 
 def qrdet_case(ty, n, cfg):
     T = ty.cpp
@@ -42,6 +43,22 @@ def qrdet_case(ty, n, cfg):
             % (town(ty, (n, n), 'a'), T, n, n))
     ens = [('bool', 'determinant<QR>(A) == product(diag(R))', E.post(d, 0).same(E.post(d, 1)))]
     return Case('C13/qrdet/%s/%d/%s' % (ty.name, n, cfg.tag()), 'C13', body, [a, d], ens, 'UF', cfg)
+
+def qr_alias_case(ty, n, which, cfg):
+    """the input tensor is also passed as the R (or Q) output, as LAPACK's geqrf allows: the factors must equal, bit for
+    bit, those of the call with separate outputs (decided by congruence: both factorisations run in one entry)."""
+    T = ty.cpp
+    a = Buf('a', ty, n * n, 'in'); d = Buf('d', ty, 4 * n * n, 'out')
+    call = 'qr(B, Q2, B);' if which == 'R' else 'qr(B, B, R2);'
+    outs = ('Q2', 'B') if which == 'R' else ('B', 'R2')
+    body = ('    %s\n    Tensor<%s,%d,%d> Q1, R1, Q2, R2, B(A);\n    qr(A, Q1, R1);\n    %s\n'
+            '    for (int i_ = 0; i_ < %d; ++i_) { d[i_] = Q1.data()[i_]; d[%d + i_] = R1.data()[i_]; d[%d + i_] = %s.data()[i_]; d[%d + i_] = %s.data()[i_]; }'
+            % (town(ty, (n, n), 'a'), T, n, n, call, n * n, n * n, 2 * n * n, outs[0], 3 * n * n, outs[1]))
+    ens = []
+    for k in range(n * n):
+        ens.append(('bool', 'Q[%d] of the aliased call == Q[%d] of the plain call' % (k, k), E.post(d, 2 * n * n + k).same(E.post(d, k))))
+        ens.append(('bool', 'R[%d] of the aliased call == R[%d] of the plain call' % (k, k), E.post(d, 3 * n * n + k).same(E.post(d, n * n + k))))
+    return Case('C13/qr-alias%s/%s/%d/%s' % (which, ty.name, n, cfg.tag()), 'C13', body, [a, d], ens, 'UF', cfg)
 
 def cases(tier, seed):
     thorough = tier == 'thorough'
@@ -53,4 +70,7 @@ def cases(tier, seed):
                 out.append(qr_case(ty, n, False, cfg))
                 if n <= (3 if not thorough else 5): out.append(qr_case(ty, n, True, cfg))
                 if n == 2: out.append(qrdet_case(ty, n, cfg))   # two QR factorisations in one UF query: larger sizes exceed the budget
+                if n in (2, 3): out.append(qr_case(ty, n, True, cfg, default_type=True))
+                if n == 2 or (n == 3 and ty is FLT):        # double n = 3: two factorisations in one query exceed 300 s
+                    out.append(qr_alias_case(ty, n, 'R', cfg)); out.append(qr_alias_case(ty, n, 'Q', cfg))
     return out
